@@ -1,0 +1,48 @@
+//go:build verif
+// +build verif
+
+// verif hooks for property C15 (add-only, compiled only with -tags verif): applyProductRule split at its snapshot point.
+
+package mod_header
+
+import (
+	"net/url"
+)
+
+import (
+	"github.com/bfenetworks/bfe/bfe_basic"
+)
+
+func (m *ModuleHeader) VerifC15Reload(path string) error {
+	q := url.Values{}
+	q.Set("path", path)
+	return m.loadConfData(q)
+}
+
+// VerifC15Take = the first line of applyProductRule
+func (m *ModuleHeader) VerifC15Take(product string) interface{} {
+	rules, ok := m.ruleTable.Search(product)
+	if !ok {
+		return nil
+	}
+	return rules
+}
+
+// VerifC15Use = the rest of applyProductRule for the request headers
+func (m *ModuleHeader) VerifC15Use(snap interface{}, req *bfe_basic.Request) {
+	if snap == nil {
+		return
+	}
+	DoHeader(req, ReqHeader, snap.([]*RuleList)[ReqHeader])
+}
+
+func (m *ModuleHeader) VerifC15Handle(req *bfe_basic.Request) {
+	m.reqHeaderHandler(req)
+}
+
+// VerifC15New = NewModuleHeader with DisableDefaultHeader set (the default headers need a full connection / session).
+func VerifC15New() *ModuleHeader {
+	m := NewModuleHeader()
+	m.disableDefaultHeader = true
+	return m
+}
